@@ -31,6 +31,7 @@ type Term struct {
 	Sort  Sort
 	Bound []BoundVar // for quantifiers
 	Pat   []*Term    // optional patterns for quantifiers
+	Alt   bool       // Pat lists alternative single patterns rather than one multi-pattern
 	str   string
 }
 
@@ -53,14 +54,22 @@ func (t *Term) String() string {
 		}
 		b.WriteString(") ")
 		if len(t.Pat) > 0 {
-			b.WriteString("(! " + t.Args[0].String() + " :pattern (")
-			for i, p := range t.Pat {
-				if i > 0 {
-					b.WriteString(" ")
+			b.WriteString("(! " + t.Args[0].String())
+			if t.Alt {
+				for _, p := range t.Pat {
+					b.WriteString(" :pattern (" + p.String() + ")")
 				}
-				b.WriteString(p.String())
+				b.WriteString("))")
+			} else {
+				b.WriteString(" :pattern (")
+				for i, p := range t.Pat {
+					if i > 0 {
+						b.WriteString(" ")
+					}
+					b.WriteString(p.String())
+				}
+				b.WriteString(")))")
 			}
-			b.WriteString(")))")
 		} else {
 			b.WriteString(t.Args[0].String() + ")")
 		}
@@ -408,6 +417,15 @@ func Forall(bv []BoundVar, body *Term, pats ...*Term) *Term {
 		return tTrue
 	}
 	return &Term{Op: "forall", Args: []*Term{body}, Sort: SBool, Bound: bv, Pat: pats}
+}
+
+// ForallAlt: like Forall, but each pattern is an alternative trigger.
+func ForallAlt(bv []BoundVar, body *Term, pats ...*Term) *Term {
+	t := Forall(bv, body, pats...)
+	if t.Op == "forall" {
+		t.Alt = true
+	}
+	return t
 }
 
 func Exists(bv []BoundVar, body *Term) *Term {
